@@ -13,6 +13,8 @@ import (
 	"github.com/thushan/olla/internal/core/domain"
 	"github.com/thushan/olla/internal/core/ports"
 	"github.com/thushan/olla/internal/logger"
+
+	"github.com/thushan/olla/internal/verifhook"
 )
 
 // UnifiedMemoryModelRegistry extends MemoryModelRegistry with model unification
@@ -128,6 +130,7 @@ func (r *UnifiedMemoryModelRegistry) RegisterModels(ctx context.Context, endpoin
 
 // unifyModelsAsync performs model unification in the background
 func (r *UnifiedMemoryModelRegistry) unifyModelsAsync(ctx context.Context, endpointURL string, models []*domain.ModelInfo) {
+	verifhook.Point("registry.unify", endpointURL)
 	r.unificationMutex.Lock()
 	defer r.unificationMutex.Unlock()
 
